@@ -107,7 +107,7 @@ func (e *eventV2) Redact() {
 		panic(fmt.Errorf("gomatrixserverlib: invalid event %v", err))
 	}
 	var res eventV2
-	err = json.Unmarshal(eventJSON, &res)
+	err = json.Unmarshal(dropCaseVariantKeys(eventJSON), &res)
 	if err != nil {
 		panic(fmt.Errorf("gomatrixserverlib: Redact failed %v", err))
 	}
@@ -317,7 +317,7 @@ func CheckFields(input PDU) error { // nolint: gocyclo
 
 func newEventFromTrustedJSONV2(eventJSON []byte, redacted bool, roomVersion IRoomVersion) (PDU, error) {
 	res := eventV2{}
-	if err := json.Unmarshal(eventJSON, &res); err != nil {
+	if err := json.Unmarshal(dropCaseVariantKeys(eventJSON), &res); err != nil {
 		return nil, err
 	}
 
@@ -336,7 +336,7 @@ func newEventFromTrustedJSONV2(eventJSON []byte, redacted bool, roomVersion IRoo
 
 func newEventFromTrustedJSONWithEventIDV2(eventID string, eventJSON []byte, redacted bool, roomVersion IRoomVersion) (PDU, error) {
 	res := &eventV2{}
-	if err := json.Unmarshal(eventJSON, &res); err != nil {
+	if err := json.Unmarshal(dropCaseVariantKeys(eventJSON), &res); err != nil {
 		return nil, err
 	}
 
